@@ -476,6 +476,17 @@ theorem range_of_any_stream (s : Sock) (n : Nat) :
   obtain ⟨a, ha, hs⟩ := range_parser_safe n r.1.headers
   exact ⟨r, a, hr, ha, hs⟩
 
+/-- **the parser is right on the canonical forms**: `Range: bytes=first-last` and `bytes=first-` (decimal digits, up to 9 of
+    them, `x` writing `first`, `y` writing `last` or empty) on a file of `n` bytes answer `first..min(last, n-1)` when that is
+    a non-empty range inside the file and "unsatisfiable" otherwise (`canonicalAnswer`; a last position `0` means "to the
+    end" in `putFile`: known finding `range-end-zero` of C10) -/
+theorem range_canonical_forms (n : Nat) (h : Dic) (x y : Bytes) (hh : hasHeader h sRange = true)
+    (hv : header h sRange = sBytesEq ++ (x ++ 45 :: y))
+    (hx : AslProofs.HttpRange.IsDigits x) (hx1 : x ≠ []) (hxl : x.length ≤ 9)
+    (hy : AslProofs.HttpRange.IsDigits y) (hyl : y.length ≤ 9) :
+    rangeAnswer n h = .ok (AslProofs.HttpRange.canonicalAnswer n (decFold x 0) (decFold y 0)) :=
+  AslProofs.HttpRange.rangeAnswer_canonical n h x y hh hv hx hx1 hxl hy hyl
+
 /-- the text after `bytes=` alone: both `parts[0]` and `parts[1]` exist whenever they are read -/
 theorem range_args_in_bounds (n : Nat) (spec : Bytes) : ∃ be, rangeArgs9 n spec = .ok be :=
   AslProofs.HttpRange.rangeArgs9_ok n spec
@@ -569,6 +580,13 @@ theorem decode_inverts_one_escape (p : Bytes) : urlDecode (escPct p) = .ok p := 
 -- `GET /c HTTP/1.1` + `Upgrade: websocket` followed by two frame bytes: the hand-off happens and leaves the two bytes
 example : (upgradeHandOff { inp := [71, 69, 84, 32, 47, 99, 32, 72, 84, 84, 80, 47, 49, 46, 49, 13, 10, 85, 112, 103, 114, 97, 100, 101, 58, 32,
     119, 101, 98, 115, 111, 99, 107, 101, 116, 13, 10, 13, 10, 129, 0] }).toOption.map (fun r => r.map (fun x => x.2.inp)) = some (some [129, 0]) := by decide
+-- hypotheses of `range_canonical_forms` met by `Range: bytes=5-9`; its answer on 36 bytes
+example : hasHeader [(sRange, [98, 121, 116, 101, 115, 61, 53, 45, 57])] sRange = true ∧
+    header [(sRange, [98, 121, 116, 101, 115, 61, 53, 45, 57])] sRange = sBytesEq ++ ([53] ++ 45 :: [57]) ∧
+    AslProofs.HttpRange.IsDigits [53] ∧ AslProofs.HttpRange.IsDigits [57] ∧
+    AslProofs.HttpRange.canonicalAnswer 36 (decFold [53] 0) (decFold [57] 0) = .part 5 9 ∧
+    AslProofs.HttpRange.canonicalAnswer 36 5 99 = .part 5 35 ∧ AslProofs.HttpRange.canonicalAnswer 36 40 50 = .unsat := by
+  unfold AslProofs.HttpRange.IsDigits; decide
 -- Range: bytes=5-9 on 36 bytes, bytes=5 (one part), bytes=-4, bytes=40-50, other unit
 example : (rangeAnswer 36 [(sRange, [98, 121, 116, 101, 115, 61, 53, 45, 57])]).toOption = some (.part 5 9) := by decide
 example : (rangeAnswer 36 [(sRange, [98, 121, 116, 101, 115, 61, 53])]).toOption = some (.part 5 35) := by decide
